@@ -135,7 +135,8 @@ fn share_data_header(share_id: Option<u32>, pdu_type_2: Option<PDUType2>, messag
 fn share_control_header(pdu_type: Option<PDUType>, pdu_source: Option<u16>, message: Option<Vec<u8>>) -> Component {
     let default_message = message.unwrap_or(vec![]);
     component![
-        "totalLength" => DynOption::new(U16::LE(default_message.length() as u16 + 6), |total| MessageOption::Size("pduMessage".to_string(), (total.inner() as usize).saturating_sub(6))),
+        // a message too large for this field is refused when it is written : no overflow here
+        "totalLength" => DynOption::new(U16::LE((default_message.length() as u16).wrapping_add(6)), |total| MessageOption::Size("pduMessage".to_string(), (total.inner() as usize).saturating_sub(6))),
         "pduType" => U16::LE(pdu_type.unwrap_or(PDUType::PdutypeDemandactivepdu) as u16),
         "PDUSource" => Some(U16::LE(pdu_source.unwrap_or(0))),
         "pduMessage" => default_message
